@@ -392,6 +392,12 @@ class Check:
         lines = []
         for key, text in self.known_printed.items():
             lines.append(f'KNOWN-FINDING: property={self.prop} {text}')
+        for key, text in self.known:
+            # every listed finding is printed on every run; one whose failing schedule did not come up in this run
+            # (real processes under the OS scheduler) says so
+            if key not in self.known_printed:
+                lines.append(f'KNOWN-FINDING: property={self.prop} {text}  [listed in KNOWN_FINDINGS.txt; its failing '
+                             f'schedule did not come up in this run]')
         replay_dir = VERIF / 'replays'
         nviol = 0
         if self.violations:
